@@ -402,6 +402,8 @@ def bytes_decode(it, b, args, kwargs):
 # arithmetic
 def binop(it, op, a, b, inplace=False):
     t = type(op)
+    if hasattr(a, "__symex_binop__"):
+        return a.__symex_binop__(it, t, b)
     if isinstance(a, (SStr, str)) and isinstance(b, (SStr, str)) and (is_sym(a) or is_sym(b)):
         if t is ast.Add:
             return strs.s_concat(a, b)
@@ -466,7 +468,10 @@ def binop(it, op, a, b, inplace=False):
             # z3 div/mod by a positive constant are floor div / non-negative mod, like Python
             return mk_int(x / y) if t is ast.FloorDiv else mk_int(x % y)
         if t is ast.Div:
-            raise Unsupported("true division of a symbolic integer (float result)")
+            if is_sym(b) or int(b) <= 0:
+                raise Unsupported("true division by a symbolic / non-positive integer")
+            # exact rational; equals the float result while the operands stay below 2**53
+            return SReal(z3.ToReal(x) / z3.RealVal(int(b)))
         raise Unsupported(f"integer operator {t.__name__}")
     return MISSING
 
@@ -645,8 +650,15 @@ def m_unhexlify(it, args, kwargs):
         raise prog(binascii.Error("Non-hexadecimal digit found"))
     out = []
     for i in range(0, len(atoms), 2):
-        h, l = hexval(atoms[i]), hexval(atoms[i + 1])
-        out.append(16 * h + l if not (isinstance(h, int) and isinstance(l, int)) else 16 * h + l)
+        a0, a1 = atoms[i], atoms[i + 1]
+        if not isinstance(a0, int) and not isinstance(a1, int):
+            # peephole: the two digits were produced by hexlify() from one byte term
+            hit = it.p.memo.get(("hexpair", a0.get_id(), a1.get_id()))
+            if hit is not None:
+                out.append(hit[0])
+                continue
+        h, l = hexval(a0), hexval(a1)
+        out.append(16 * h + l)
     return SBytes(out)
 
 
@@ -659,8 +671,9 @@ def m_hexlify(it, args, kwargs):
         if isinstance(x, int):
             out.extend(binascii.hexlify(bytes([x])))
             continue
-        for d in (x / 16, x % 16):
-            out.append(z3.If(d < 10, 48 + d, 87 + d))
+        pair = [z3.If(d < 10, 48 + d, 87 + d) for d in (x / 16, x % 16)]
+        it.p.memo[("hexpair", pair[0].get_id(), pair[1].get_id())] = (x, pair)
+        out.extend(pair)
     return SBytes(out)
 
 
@@ -685,8 +698,16 @@ def m_struct_unpack(it, args, kwargs):
     atoms = bytes_atoms(it, data)
     if len(atoms) != 2 * n:
         raise prog(struct.error(f"unpack requires a buffer of {2 * n} bytes"))
-    return tuple(mk_int(strs._lit(atoms[2 * i]) + 256 * strs._lit(atoms[2 * i + 1]))
-                 for i in range(n))
+    return tuple(word_of(it, atoms[2 * i], atoms[2 * i + 1]) for i in range(n))
+
+
+def word_of(it, lo, hi):
+    """Little-endian 16-bit word of two byte atoms (peephole: bytes produced by pack('<H'))."""
+    if not isinstance(lo, int) and not isinstance(hi, int):
+        hit = it.p.memo.get(("word", lo.get_id(), hi.get_id()))
+        if hit is not None:
+            return mk_int(hit[0])
+    return mk_int(strs._lit(lo) + 256 * strs._lit(hi))
 
 
 def m_struct_pack(it, args, kwargs):
@@ -705,7 +726,9 @@ def m_struct_pack(it, args, kwargs):
         e = zint(v)
         if not it.p.branch(z3.And(e >= 0, e <= 65535)):
             raise prog(struct.error("ushort format requires 0 <= number <= 65535"))
-        out.extend([e % 256, e / 256])
+        lo, hi = e % 256, e / 256
+        it.p.memo[("word", lo.get_id(), hi.get_id())] = (e, lo, hi)
+        out.extend([lo, hi])
     return SBytes(out)
 
 
@@ -733,7 +756,8 @@ def m_int(it, args, kwargs):
     if isinstance(a, Opaque):
         raise Unsupported("int() of opaque text")
     if isinstance(a, SReal):
-        raise Unsupported("int() of a symbolic real")
+        # truncation toward zero (ToInt is floor)
+        return mk_int(z3.If(a.e >= 0, z3.ToInt(a.e), -z3.ToInt(-a.e)))
     return MISSING
 
 
@@ -907,6 +931,26 @@ def m_next(it, args, kwargs):
         raise prog(StopIteration())
 
 
+def m_range(it, args, kwargs):
+    if not any(is_sym(a) for a in args):
+        return MISSING
+    vals = [enumerate_int(it, a, 0, it.LOOP_BOUND) if is_sym(a) else a for a in args]
+    return range(*vals)
+
+
+def enumerate_int(it, v, lo, hi):
+    """Make a symbolic integer concrete by enumerating its feasible values through solver
+    models (one fork per value); values outside lo..hi end the path as outside the bound."""
+    e = zint(v)
+    for _ in range(hi - lo + 2):
+        x = it.p.current_model().eval(e, model_completion=True).as_long()
+        if it.p.branch(e == x):
+            if not lo <= x <= hi:
+                raise Cut(f"loop / range count outside the unwinding bound {lo}..{hi}")
+            return x
+    raise Unsupported("integer enumeration did not converge")
+
+
 def m_list(it, args, kwargs):
     if not args:
         return []
@@ -995,7 +1039,7 @@ BUILTINS = {
     int: m_int, str: m_str, float: m_float, len: m_len, bool: m_bool, isinstance: m_isinstance,
     type: m_type, getattr: m_getattr, setattr: m_setattr, hasattr: m_hasattr, max: m_max,
     min: m_min, all: m_all, any: m_any, next: m_next, list: m_list, tuple: m_tuple, dict: m_dict,
-    sorted: m_sorted, enumerate: m_enumerate, zip: m_zip, repr: m_repr, bytearray: m_bytearray,
+    sorted: m_sorted, range: m_range, enumerate: m_enumerate, zip: m_zip, repr: m_repr, bytearray: m_bytearray,
     abs: m_abs, callable: m_callable, id: m_id, print: m_print, format: m_format,
     binascii.unhexlify: m_unhexlify, binascii.hexlify: m_hexlify,
     struct.unpack: m_struct_unpack, struct.pack: m_struct_pack,
